@@ -46,6 +46,7 @@ func TestVerifRejectScenarios(t *testing.T) {
 		t.Skip()
 	}
 	quiet()
+	baseLogging()
 	of, _ := os.Create(out)
 	defer of.Close()
 	bw := bufio.NewWriter(of)
